@@ -136,8 +136,42 @@ Qed.
 Lemma udp_early_with_seconds :
   exists n n', udp_read_g 1000000000 1 n = (RTimeout, n') /\ dl n = Some 1360000000 /\ clock n' = 1110000000.
 Proof.
-  exists {| clock := 1110000000; dl := Some 1360000000; unread := []; pend := []; fin := 5000000000 |}.
+  exists {| clock := 1110000000; dl := Some 1360000000; unread := []; pend := []; fin := 5000000000; stale := false |}.
   eexists. split; [vm_compute; reflexivity|split; reflexivity].
+Qed.
+
+(* ---- packetConn.Read over the deadline timer with a possibly stale tick ---- *)
+Lemma udp_m_cases rechk g max n :
+  (rechk = false /\ (exists T, dl n = Some T) /\ udp_read_m rechk g max n = (RTimeout, unstale n)) \/
+  (exists n0, (n0 = n \/ n0 = unstale n) /\ udp_read_m rechk g max n = udp_read_g g max n0).
+Proof.
+  unfold udp_read_m. destruct (unread n) eqn:EU; [|right; exists n; auto].
+  destruct (exceeded (udp_stored g n) (clock n)) eqn:EX.
+  { right. exists n. split; [auto|]. unfold udp_read_g. rewrite EU, EX. reflexivity. }
+  destruct (stale n); [|right; exists n; auto].
+  destruct rechk; cbn [negb andb]; [right; exists (unstale n); auto|].
+  destruct (dl n) as [T|] eqn:ED; [left; eauto|right; exists (unstale n); auto].
+Qed.
+
+Ltac udp_m_split rechk g max n :=
+  destruct (udp_m_cases rechk g max n) as [(_ & _ & ->)|(n0 & [->| ->] & ->)].
+
+Lemma udp_m_dl rechk g max n : dl (snd (udp_read_m rechk g max n)) = dl n.
+Proof. udp_m_split rechk g max n; [reflexivity|apply udp_read_dl|apply (udp_read_dl g max (unstale n))]. Qed.
+
+Lemma udp_m_by_deadline rechk g max n D : dl n = Some D -> clock (snd (udp_read_m rechk g max n)) <= Z.max (clock n) D.
+Proof.
+  intro HD. udp_m_split rechk g max n; [cbn; lia|apply udp_by_deadline; exact HD|apply (udp_by_deadline g max (unstale n) D HD)].
+Qed.
+
+Lemma udp_m_data_len rechk g max n d n' : udp_read_m rechk g max n = (RData d, n') -> (length d <= max)%nat.
+Proof. udp_m_split rechk g max n; [discriminate|apply udp_data_len|apply udp_data_len]. Qed.
+
+(* never early needs both: nanosecond storage and the recheck of a tick *)
+Lemma udp_m_not_early max n n' : udp_read_m true 1 max n = (RTimeout, n') -> exists D, dl n = Some D /\ D <= clock n'.
+Proof.
+  destruct (udp_m_cases true 1 max n) as [(H & _)|(n0 & [->| ->] & ->)]; [discriminate|apply udp_not_early_ns|].
+  apply (udp_not_early_ns max (unstale n) n').
 Qed.
 
 (* ------------------------------------------------------------ timed behaviour of Compile over any network that keeps the contracts *)
@@ -292,9 +326,10 @@ Proof.
       assert (Hhead : forall Y, now (nt s) <= M -> bounded M (until_run d ([(now (nt s), EClear); (now (nt s), ERun d i (avail s))] ++ Y))).
       { intros Y HM. cbn. rewrite Nat.eqb_refl. repeat constructor; exact HM. }
       destruct (chain sub d i hs (fun st' => Cont st') s1) as [s2|s2|s2|s2] eqn:Ech; cbn [res_st] in Hec.
-      2: { apply (pass_t_prepend M s s2 _ ([(now (nt s), EClear); (now (nt s), ERun d i (avail s))] ++ Xc)); [rewrite Hec, Hs1, <- app_assoc; reflexivity| | | |apply IH].
-           - unfold evsX. rewrite map_app. apply min_depth_app; [cbn; md|exact Hmc].
-           - apply notimeout_app; [intros tm [H|[H|[]]]; discriminate|apply nodrop_notimeout; exact Hnc].
+      2: { apply (pass_t_prepend M s (emit (ENext d i (avail s2)) s2) _ ([(now (nt s), EClear); (now (nt s), ERun d i (avail s))] ++ (Xc ++ [(now (nt s2), ENext d i (avail s2))])));
+             [rewrite tr_emit, Hec, Hs1, <- !app_assoc; reflexivity| | | |apply IH].
+           - unfold evsX. rewrite !map_app. apply min_depth_app; [cbn; md|apply min_depth_app; [exact Hmc|cbn; md]].
+           - apply notimeout_app; [intros tm [H|[H|[]]]; discriminate|apply notimeout_app; [apply nodrop_notimeout; exact Hnc|intros tm [H|[]]; discriminate]].
            - intro HM. split; [apply Hhead; exact HM|]. cbn. rewrite Nat.eqb_refl. discriminate. }
       all: cbn [pass_t_post res_st]; exists ([(now (nt s), EClear); (now (nt s), ERun d i (avail s))] ++ Xc);
         rewrite Hec, Hs1, <- app_assoc; (split; [reflexivity|]); unfold evsX; rewrite map_app;
@@ -437,7 +472,7 @@ End Timed.
 
 (* ------------------------------------------------------------ the instances *)
 Definition tcp_compile := compile tnet tnow tcp_set_dl tcp_read tpush.
-Definition udp_compile (g : Z) := compile tnet tnow (udp_set_dl_g g) (udp_read_g g) tpush.
+Definition udp_compile (rechk : bool) (g : Z) := compile tnet tnow udp_set_dl_m (udp_read_m rechk g) tpush.
 
 Lemma tcp_H_by m n D : dl n = Some D -> tnow (snd (tcp_read m n)) <= Z.max (tnow n) D.
 Proof. apply tcp_by_deadline. Qed.
@@ -456,26 +491,27 @@ Proof.
            (fun _ m n n' H => tcp_not_early m n n' H) fuel d rs t s).
 Qed.
 
-Lemma udp_H_by g m n D : dl n = Some D -> tnow (snd (udp_read_g g m n)) <= Z.max (tnow n) D.
-Proof. apply udp_by_deadline. Qed.
+Lemma udp_H_by rechk g m n D : dl n = Some D -> tnow (snd (udp_read_m rechk g m n)) <= Z.max (tnow n) D.
+Proof. apply udp_m_by_deadline. Qed.
 
-Lemma udp_H_ne g : g = 1 -> forall m n n', udp_read_g g m n = (RTimeout, n') -> exists D, dl n = Some D /\ D <= tnow n'.
-Proof. intros -> m n n' H. apply (udp_not_early_ns m n n' H). Qed.
+Lemma udp_H_ne rechk g : rechk = true /\ g = 1 -> forall m n n', udp_read_m rechk g m n = (RTimeout, n') -> exists D, dl n = Some D /\ D <= tnow n'.
+Proof. intros [-> ->] m n n' H. apply (udp_m_not_early m n n' H). Qed.
 
-(* for the UDP virtual connection "never early" holds when the deadline is stored in nanoseconds *)
-Lemma c05_not_early_udp g fuel d rs t (s : st tnet) tm : g = 1 ->
-  In (tm, EDrop d DTimeout) (own_tr s (udp_compile g fuel d rs t (fun s' => Cont s') s)) -> tnow (nt s) + t <= tm.
+(* for the UDP virtual connection "never early" holds when the deadline is stored in nanoseconds and a timer
+   tick is rechecked against the stored deadline *)
+Lemma c05_not_early_udp rechk g fuel d rs t (s : st tnet) tm : rechk = true /\ g = 1 ->
+  In (tm, EDrop d DTimeout) (own_tr s (udp_compile rechk g fuel d rs t (fun s' => Cont s') s)) -> tnow (nt s) + t <= tm.
 Proof.
-  intro Hg. apply (t_not_early tnet tnow (udp_set_dl_g g) (udp_read_g g) tpush dl (fun v n => eq_refl) (fun v n => eq_refl) (udp_H_by g) (g = 1)
-           (udp_H_ne g) fuel d rs t s tm Hg).
+  intro Hg. apply (t_not_early tnet tnow udp_set_dl_m (udp_read_m rechk g) tpush dl (fun v n => eq_refl) (fun v n => eq_refl) (udp_H_by rechk g) (rechk = true /\ g = 1)
+           (udp_H_ne rechk g) fuel d rs t s tm Hg).
 Qed.
 
 (* "never late" holds for every granularity *)
-Lemma c05_ends_by_deadline_udp g fuel d rs t (s : st tnet) : 0 <= t ->
-  Forall (fun te => fst te <= tnow (nt s) + t) (until_run d (own_tr s (udp_compile g fuel d rs t (fun s' => Cont s') s))).
+Lemma c05_ends_by_deadline_udp rechk g fuel d rs t (s : st tnet) : 0 <= t ->
+  Forall (fun te => fst te <= tnow (nt s) + t) (until_run d (own_tr s (udp_compile rechk g fuel d rs t (fun s' => Cont s') s))).
 Proof.
-  apply (t_ends_by_deadline tnet tnow (udp_set_dl_g g) (udp_read_g g) tpush dl (fun v n => eq_refl) (fun v n => eq_refl) (udp_H_by g) (g = 1)
-           (udp_H_ne g) fuel d rs t s).
+  apply (t_ends_by_deadline tnet tnow udp_set_dl_m (udp_read_m rechk g) tpush dl (fun v n => eq_refl) (fun v n => eq_refl) (udp_H_by rechk g) (rechk = true /\ g = 1)
+           (udp_H_ne rechk g) fuel d rs t s).
 Qed.
 
 (* ------------------------------------------------------------ obligations over the generated constants and shape facts *)
@@ -496,10 +532,10 @@ Lemma tcp_buffer_bounded fuel d rs t (s : st tnet) : buf_ok tnet s ->
   Forall ev_buf_ok (own_evs s (tcp_compile fuel d rs t (fun s' => Cont s') s)).
 Proof. apply c05_buffer_bounded; [apply consts_ok|apply tcp_data_len]. Qed.
 
-Lemma udp_buffer_bounded g fuel d rs t (s : st tnet) : buf_ok tnet s ->
-  buf_ok tnet (res_st (udp_compile g fuel d rs t (fun s' => Cont s') s)) /\
-  Forall ev_buf_ok (own_evs s (udp_compile g fuel d rs t (fun s' => Cont s') s)).
-Proof. apply c05_buffer_bounded; [apply consts_ok|apply udp_data_len]. Qed.
+Lemma udp_buffer_bounded rechk g fuel d rs t (s : st tnet) : buf_ok tnet s ->
+  buf_ok tnet (res_st (udp_compile rechk g fuel d rs t (fun s' => Cont s') s)) /\
+  Forall ev_buf_ok (own_evs s (udp_compile rechk g fuel d rs t (fun s' => Cont s') s)).
+Proof. apply c05_buffer_bounded; [apply consts_ok|apply udp_m_data_len]. Qed.
 
 Lemma bufb_value : Z.of_nat BUFB = layer4_MaxMatchingBytes - 1 + layer4_prefetchChunkSize.
 Proof. vm_compute. reflexivity. Qed.
@@ -512,6 +548,83 @@ Definition udp_witness : res tnet :=
     (t_init (860 * ms) [(860 * ms, [x01]); (1110 * ms, [x02])] (100000 * ms)).
 (* granularity of whole seconds: connection starts at x.86 s, timeout 0.5 s, a datagram at +0.25 s:
    matching is abandoned at +0.25 s *)
+(* the machine WITHOUT the recheck of a timer tick (nanosecond storage): a route without matchers runs and passes
+   the connection on (the deadline is cleared: the timer fires at once, its tick stays in the channel), the next
+   route is undecided, the deadline is armed again: the next read takes the stale tick for a timeout at +0 ms *)
+Definition nonterm_undecided_routes : list route := [Route [] []; Route [[MPrim (thr 100 Yes)]] [HTerm]].
+Definition udp_tick_witness : res tnet :=
+  udp_serve_m false 1 20 nonterm_undecided_routes (400 * ms) (t_init (500 * ms) [(500 * ms, [x01])] (100000 * ms)).
+Lemma udp_tick_early :
+  In (500 * ms, EDrop 0 DTimeout) (tr (res_st udp_tick_witness)) /\ 500 * ms < 500 * ms + 400 * ms.
+Proof. split; [vm_compute; auto 10|vm_compute; reflexivity]. Qed.
+(* ... with the recheck the same schedule is given up exactly at the deadline *)
+Lemma udp_tick_ok :
+  first_drop (tr (res_st (udp_serve_m true 1 20 nonterm_undecided_routes (400 * ms) (t_init (500 * ms) [(500 * ms, [x01])] (100000 * ms)))))
+  = Some (900 * ms, DTimeout).
+Proof. vm_compute. reflexivity. Qed.
+
 Lemma udp_seconds_early :
   In (1110 * ms, EDrop 0 DTimeout) (tr (res_st udp_witness)) /\ 1110 * ms < 860 * ms + 500 * ms.
 Proof. split; [vm_compute; auto 10|vm_compute; reflexivity]. Qed.
+
+(* ------------------------------------------------------------ the timed networks make progress: totality of the timed runs *)
+From L4.proofs Require Import RouterTotal.
+
+Definition arrivals_nonempty (n : tnet) : Prop := Forall (fun p => snd p <> []) (pend n).
+
+Lemma firstn_nonempty {A} m (l : list A) : (0 < m)%nat -> l <> [] -> firstn m l <> [].
+Proof. destruct m; [lia|]. destruct l; [contradiction|]. discriminate. Qed.
+
+Lemma tcp_read_ok m n : arrivals_nonempty n -> arrivals_nonempty (snd (tcp_read m n)).
+Proof.
+  unfold arrivals_nonempty, tcp_read. intro H. destruct (passed (dl n) (clock n)); [exact H|].
+  destruct (unread n); [|exact H].
+  destruct (pend n) as [|[ta d] rest] eqn:EP; [destruct (passed _ _); cbn; rewrite EP; exact H|].
+  inversion H; subst. destruct (passed _ _); cbn; [rewrite EP; exact H|assumption].
+Qed.
+Lemma tcp_read_progress m n dta n' : arrivals_nonempty n -> (0 < m)%nat -> tcp_read m n = (RData dta, n') -> dta <> [].
+Proof.
+  unfold arrivals_nonempty, tcp_read. intros H Hm. destruct (passed (dl n) (clock n)); [discriminate|].
+  destruct (unread n) eqn:EU.
+  - destruct (pend n) as [|[ta d] rest]; [destruct (passed _ _); discriminate|]. inversion H; subst.
+    destruct (passed _ _); [discriminate|]. intro E; apply take_spec in E. destruct E as [E _]. inversion E; subst.
+    apply firstn_nonempty; assumption.
+  - intro E; apply take_spec in E. destruct E as [E _]. inversion E; subst. apply firstn_nonempty; [assumption|discriminate].
+Qed.
+Lemma udp_read_ok g m n : arrivals_nonempty n -> arrivals_nonempty (snd (udp_read_g g m n)).
+Proof.
+  unfold arrivals_nonempty, udp_read_g. intro H. destruct (unread n); [|exact H].
+  destruct (exceeded _ _); [exact H|].
+  destruct (pend n) as [|[ta d] rest] eqn:EP.
+  - destruct (Z.ltb _ _); [cbn; rewrite EP; exact H|]. destruct (dl n); [destruct (Z.leb _ _)|]; cbn; rewrite EP; exact H.
+  - inversion H; subst. destruct (Z.ltb _ _); [cbn; assumption|]. destruct (dl n); [destruct (Z.leb _ _)|]; cbn; rewrite EP; exact H.
+Qed.
+Lemma udp_read_progress g m n dta n' : arrivals_nonempty n -> (0 < m)%nat -> udp_read_g g m n = (RData dta, n') -> dta <> [].
+Proof.
+  unfold arrivals_nonempty, udp_read_g. intros H Hm. destruct (unread n) eqn:EU.
+  - destruct (exceeded _ _); [discriminate|].
+    destruct (pend n) as [|[ta d] rest].
+    + destruct (Z.ltb _ _); [discriminate|]. destruct (dl n); [destruct (Z.leb _ _)|]; discriminate.
+    + inversion H; subst. destruct (Z.ltb _ _).
+      * intro E; apply take_spec in E. destruct E as [E _]. inversion E; subst. apply firstn_nonempty; assumption.
+      * destruct (dl n); [destruct (Z.leb _ _)|]; discriminate.
+  - intro E; apply take_spec in E. destruct E as [E _]. inversion E; subst. apply firstn_nonempty; [assumption|discriminate].
+Qed.
+
+Lemma tcp_compile_total fuel d rs t next (s : st tnet) : fuel_ok rs fuel -> arrivals_nonempty (nt s) ->
+  (forall s', is_exh (next s') = false) -> is_exh (tcp_compile fuel d rs t next s) = false.
+Proof.
+  apply (compile_total tnet tnow tcp_set_dl tcp_read tpush arrivals_nonempty tcp_read_ok (fun v n H => H) (fun b n H => H) tcp_read_progress chunk_pos_ok).
+Qed.
+Lemma udp_m_ok rechk g m n : arrivals_nonempty n -> arrivals_nonempty (snd (udp_read_m rechk g m n)).
+Proof. intro H. udp_m_split rechk g m n; [exact H|apply udp_read_ok; exact H|apply (udp_read_ok g m (unstale n)); exact H]. Qed.
+Lemma udp_m_progress rechk g m n dta n' : arrivals_nonempty n -> (0 < m)%nat -> udp_read_m rechk g m n = (RData dta, n') -> dta <> [].
+Proof.
+  intros H Hm. udp_m_split rechk g m n; [discriminate|apply udp_read_progress; assumption|apply (udp_read_progress g m (unstale n)); assumption].
+Qed.
+
+Lemma udp_compile_total rechk g fuel d rs t next (s : st tnet) : fuel_ok rs fuel -> arrivals_nonempty (nt s) ->
+  (forall s', is_exh (next s') = false) -> is_exh (udp_compile rechk g fuel d rs t next s) = false.
+Proof.
+  apply (compile_total tnet tnow udp_set_dl_m (udp_read_m rechk g) tpush arrivals_nonempty (udp_m_ok rechk g) (fun v n H => H) (fun b n H => H) (udp_m_progress rechk g) chunk_pos_ok).
+Qed.
